@@ -481,6 +481,9 @@ def missing_pieces(ctx, env, watch):
                               '?aerr=503=4', '?verr=503=4', '?terr=404=2', '?merr=503=1&update=1', '?vcorrupt=3', '?acodec=ec-3&aerr=503=4'):
                         urls.append('/dash/%s/%s/%s%s' % (mode, name, mft, q))
                 urls.append('/play/%s/%s/hand_made/index.html' % (mode, name))
+                with env.app.app_context():
+                    spk = env.models.Stream.get(directory=name).pk
+                urls += ['/stream/%d' % spk, '/stream/%d?ajax=1' % spk, '/stream/%d/defaults' % spk, '/streams', '/streams?ajax=1', '/']
                 for url in urls:
                     st, site, r = watch.get(c, url)
                     ctx.count('http:missing-pieces')
